@@ -5,12 +5,12 @@ import json, subprocess
 CLAIMED = {
  "C02": dict(
    technique="bounded explicit-state model checking: exhaustive enumeration of constructor/accessor lattices of the real API against an i128 reference model and a canonical-form predicate",
-   text="Every constructor (from_parts over century anchors x the whole u64 axis of century multiples, from_total_nanoseconds over the duration lattice plus i128 extremes, from_truncated_nanoseconds, n*Unit / Unit*n / n.unit() over the i64 factor lattice x 9 units, compose over the boundary-field product (3 x 12^7 in the thorough tier), std conversions) is executed on the real code and the (centuries, nanoseconds) read back is compared with the clamped i128 count and the canonical-form predicate; the accessors total_nanoseconds / try_truncated_nanoseconds / truncated_nanoseconds are compared with the count on the whole lattice.",
+   text="Every constructor (from_parts over century anchors x the whole u64 axis of century multiples, from_total_nanoseconds over the duration lattice plus i128 extremes, from_truncated_nanoseconds, n*Unit / Unit*n / n.unit() over the i64 factor lattice x 9 units, compose over the full boundary-field product 3 x 12^7 (both tiers), std conversions) is executed on the real code and the (centuries, nanoseconds) read back is compared with the clamped i128 count and the canonical-form predicate; the accessors total_nanoseconds / try_truncated_nanoseconds / truncated_nanoseconds are compared with the count on the whole lattice.",
    note="Trusted: to_parts() returns the stored fields. Known finding D1 (total_nanoseconds below -1 century, pinned by tests/duration.rs:378) matched by exact defect model.",
    ref="DESIGN.md §4 C02"),
  "C03": dict(
    technique="bounded explicit-state model checking: exhaustive enumeration of all ordered pairs (and all triples of a sub-lattice) of the duration lattice through the real comparison operators, judged against the order/equality of the i128 counts",
-   text="All ordered pairs of the duration lattice go through == != < <= > >= cmp partial_cmp min max and a+b>a; all triples of a 50-value zero-crossing/adjacent-century sub-lattice through the transitivity checks; sort from four permutations; lattice x 9 units for the Unit comparisons. x == -x within one century is a counted don't-care (documented).",
+   text="All ordered pairs of the duration lattice go through == != < <= > >= cmp partial_cmp min max and a+b>a; all triples of a 50-value zero-crossing/adjacent-century sub-lattice through the transitivity checks; sort from four permutations; lattice x 9 units for the Unit comparisons; operands produced by real operations (neg, abs, double neg, +0, (a-a)+a, *1, *-1, /1) compared with the same count built directly and with its neighbours. x == -x within one century is a counted don't-care (documented).",
    note="Trusted: from_parts/to_parts (C02). Equality between exact negations below one century is not judged (the statement allows it).",
    ref="DESIGN.md §4 C03"),
  "C04": dict(
@@ -29,18 +29,18 @@ CLAIMED = {
    note="'Z' followed by a non-UTC suffix and explicit UnsupportedTimeSystem refusals are counted don't-cares; JD in ET/TDB excluded (statement).",
    ref="DESIGN.md §4 C10"),
  "C19": dict(
-   technique="bounded explicit-state model checking: exhaustive enumeration of all formats of 1-2 tokens (17 tokens x 57 separator strings), all/every-5th 3-token formats, 16-token rotations and the nine constants x a 55-epoch sub-lattice through the real Format::from_str + Formatter, all 2 879 %z offsets, and parse-back of up to 52 000 full date-time formats, judged by per-token reference pieces",
-   text="For every enumerated (format, epoch) the real output must equal the concatenation of per-token reference pieces (civil fields of the epoch in its own scale, English names, weekday of the printed date) and exactly the format's separators. The six documented constants must equal Format::from_str(documented string); all nine are rendered and compared, incl. optional tokens; ISO8601 formatter == Display for non-zero nanoseconds; %z is checked for every offset -23:59..+23:59 incl. parse-back of the local time; all 5 040 orders of the seven numeric tokens and all 46 656 separator assignments (every 7th/11th in quick) plus name/ordinal formats are rendered for UTC epochs and parsed back through three entry points.",
+   technique="bounded explicit-state model checking: exhaustive enumeration of all formats of 1-2 tokens (17 tokens x 57 separator strings), all 3-token formats (x 9 separator pairs), 16-token rotations and the nine constants x a 55-epoch sub-lattice through the real Format::from_str + Formatter, all 2 879 %z offsets, and parse-back of up to 52 000 full date-time formats, judged by per-token reference pieces",
+   text="For every enumerated (format, epoch) the real output must equal the concatenation of per-token reference pieces (civil fields of the epoch in its own scale, English names, weekday of the printed date) and exactly the format's separators. The six documented constants must equal Format::from_str(documented string); all nine are rendered and compared, incl. optional tokens; ISO8601 formatter == Display for non-zero nanoseconds; %z is checked for every offset -23:59..+23:59 incl. parse-back of the local time; all 5 040 orders of the seven numeric tokens and all 46 656 separator assignments; Formatter::to_time_scale / set_timezone over 7 target scales plus name/ordinal formats are rendered for UTC epochs and parsed back through three entry points.",
    note="%y's own text is not pinned by the statement (counted don't-care); %J/%w are compared with the accessors. ISO8601 == Display is not judged for whole seconds: the statement's nine-digit %f rule and its display rule contradict each other there.",
    ref="DESIGN.md §4 C19"),
  "C11": dict(
    technique="bounded explicit-state model checking: exhaustive enumeration of the unit-multiple duration lattice through the real decompose/Display/FromStr/serde chain, and of the parser's complete spelling, component-subset and offset tables, judged by integer decomposition and a reference renderer",
-   text="~8 000 (quick) / ~25 000 (thorough) durations within 10 000 years (every k x unit +- 0..3 ns for the seven units and ~100 values of k, both signs) are decomposed, subdivided, displayed, parsed back, serialized to JSON and back and read through Epoch::hours()..nanoseconds(); every result is compared with the integer model / reference text and the parse-back with the original parts. All 25 unit spellings x 12 values x sign, all 127 component subsets x 3 value sets x sign and all 28 800 offset strings in five shapes are parsed and compared with the value they denote.",
+   text="~36 000 (quick) / ~250 000 (thorough) durations within 10 000 years (every k x unit +- 0..3 ns for the seven units and k = 1..512 / 1..4096 plus larger anchors, both signs) are decomposed, subdivided, displayed, parsed back, serialized to JSON and back and read through Epoch::hours()..nanoseconds(); every result is compared with the integer model / reference text and the parse-back with the original parts. All 25 unit spellings x 12 values x sign, all 127 component subsets x 3 value sets x sign and all 28 800 offset strings in five shapes are parsed and compared with the value they denote.",
    note="The sign of a positive decomposition may be 0 or +1 (suite pins 0). Forms without a space between value and unit are undocumented and not exercised.",
    ref="DESIGN.md §4 C11"),
  "C13": dict(
    technique="bounded explicit-state model checking: exhaustive enumeration of all strings up to length 4/5 over per-parser alphabets (incl. 2-, 3-, 4-byte characters and non-ASCII digits) and of grammar-derived corpora closed under all single- and double-point mutations, through the ten real parser entry points under overflow checks with panic capture and a watchdog",
-   text="5.4 M (quick) / 88 M (thorough) inputs: every string of up to L symbols per parser, every single mutant (delete, truncate, substitute, insert over the alphabet) of every seed, every double mutant of seeds up to 16/40 characters, numeric extremes (huge digit runs, 1e400, inf, nan, i32/u32 limits, non-ASCII digits) spliced into every numeric field, and for the two-argument entry points mutated formats x mutated inputs. The call must return Ok or Err: panics are caught (overflow checks on), a watchdog bounds each call. Second clause: the full product of boundary field values rendered as well-formed text must be rejected when a field is out of range, in five text shapes and through three entry points.",
+   text="5.8 M (quick) / 88 M (thorough) inputs: every string of up to L symbols per parser, every single mutant (delete, truncate, substitute, insert over the alphabet) of every seed, every double mutant of seeds up to 16/40 characters, numeric extremes (huge digit runs, 1e400, inf, nan, i32/u32 limits, non-ASCII digits) spliced into every numeric field, for the two-argument entry points mutated formats x mutated inputs and structured pairs (every format of 1-2 tokens x 57 separator strings, every 3-token format, formats of 14-17 tokens, each against the real formatter's own output and five field-count variants). The call must return Ok or Err: panics are caught (overflow checks on), a watchdog bounds each call. Second clause: the full product of boundary field values rendered as well-formed text must be rejected when a field is out of range, in five text shapes and through three entry points.",
    note="'All UTF-8 strings' is approximated by the stated alphabets and mutation operators. Known finding D26 (30/31 February in leap years accepted; pinned by the suite) with a narrow signature.",
    ref="DESIGN.md §4 C13"),
  "C08": dict(
@@ -65,11 +65,11 @@ CLAIMED = {
    ref="DESIGN.md §4 C15"),
  "C05": dict(
    technique="bounded explicit-state model checking: exhaustive enumeration of epoch lattice x all 36 ordered scale pairs through the real conversions, plus stateright BFS over every sequence of conversions up to depth 3/4, co-simulated with a one-subtraction reference model whose zero points are derived from civil dates",
-   text="For every instant of the epoch lattice (both signs, century boundaries, every scale's zero, year 0001/9999, leap second instants) and every ordered pair of the six uniform scales the real to_time_scale / to_duration_in_time_scale / named accessor / named constructor / round trip are compared to the nanosecond with count + zero(src) - zero(dst); conversion is checked to commute with + d; all duplicated public constants are compared with the derived value; the zero date of every scale is rendered and rebuilt; a stateright BFS drives every conversion sequence from 6 x ~170 (quick) / 6 x ~700 (thorough) initial states and compares implementation and model state after every step.",
+   text="For every instant of the epoch lattice (both signs, century boundaries, every scale's zero, year 0001/9999, leap second instants) and every ordered pair of the six uniform scales the real to_time_scale / to_duration_in_time_scale / named accessor / named constructor / round trip are compared to the nanosecond with count + zero(src) - zero(dst); conversion is checked to commute with + d; all duplicated public constants are compared with the derived value; the zero date of every scale is rendered and rebuilt; a stateright BFS drives every conversion sequence (depth 4 quick / 5 thorough) from 6 x ~700 initial states and compares implementation and model state after every step.",
    note="Trusted: the zero points as stated in the property (civil date + offset), Hinnant's days_from_civil (self-checked against anchors and as a bijection over +-30 000 years at start-up).",
    ref="DESIGN.md §4 C05"),
  "C06": dict(
-   technique="bounded explicit-state model checking: exhaustive enumeration of instants round every table entry (every second -45..+85 s x 4 sub-second offsets, every nanosecond within +-300 ns / +-3 us) x directions x 34 provider configurations through the real conversions and accessors, against a table-lookup model parsed from the two shipped data files",
+   technique="bounded explicit-state model checking: exhaustive enumeration of instants round every table entry (every second -45..+85 s x 4 sub-second offsets, every nanosecond within +-3 us / +-30 us, every second of the day before and after each entry) x directions x 34 provider configurations through the real conversions and accessors, plus stateright BFS over sequences mixing conversions among UTC/TAI/GPST/TT with +- steps from states next to four table entries, against a table-lookup model parsed from the two shipped data files",
    text="The built-in table (forward, reverse, indexed) and the file provider are compared entry by entry with the IERS list parsed at check time from data/leap-seconds.list and naif0012.txt (three-way agreement with a digest in the harness). UTC->TAI, TAI->UTC and the round trip are checked to the nanosecond on every lattice instant (28 IERS + 14 SOFA entries, dates before 1960/1972 and after 2017, +-10 500 years); the accessor and 34 file providers (every prefix of the list, 5 format variants) are checked absolutely on TAI-labelled epochs and relatively (file == built-in) on every scale.",
    note="TAI instants inside an inserted interval (the leap second itself, the 10 s of 1972-01-01) have no UTC count: the value is a counted don't-care bounded by the inserted amount (the suite pins one convention). The accessor's answer for a TAI epoch between an entry's timestamp and its TAI instant is not judged.",
    ref="DESIGN.md §4 C06"),
@@ -90,17 +90,17 @@ CLAIMED = {
    ref="DESIGN.md §4 C20"),
  "C18": dict(
    technique="bounded explicit-state model checking: exhaustive enumeration of a float lattice (every binade with neighbours, thresholds +-1 ulp, decimal fractions, subnormals, non-finite) x 9 units x 4 call forms and of duration lattice x float sub-lattice through the real float interop, judged by exact integer arithmetic on the decoded floats; watchdog for the no-hang clause",
-   text="unit x float in four call forms over ~3 300 (quick) / ~17 000 (thorough) floats x 9 units is compared exactly with clamp(trunc(fl(x*f))) computed on the decoded mantissa/exponent; to_seconds/to_unit are compared with the correctly rounded exact rational within 8 ulp (measured worst case reported) and checked monotone along the sorted lattice; Duration*f64 (both orders) must lie within 1 ns + 4 ulp of the exact dyadic product; compose_f64 is checked against the saturating sum of its terms; a watchdog turns a case that does not return within 10/30 s into a violation.",
+   text="unit x float in four call forms over ~17 000 floats x 9 units is compared exactly with clamp(trunc(fl(x*f))) computed on the decoded mantissa/exponent; to_seconds/to_unit are compared with the correctly rounded exact rational within 8 ulp (measured worst case reported) and checked monotone along the sorted lattice; Duration*f64 (both orders) must lie within 1 ns + 4 ulp of the exact dyadic product; compose_f64 is checked against the saturating sum of its terms; a watchdog turns a case that does not return within 10/30 s into a violation.",
    note="Trusted: IEEE-754 double multiplication for the one product the statement prescribes; from_parts/to_parts (C02). Known finding D1 (reader below -1 century) matched by defect model.",
    ref="DESIGN.md §4 C18"),
  "C14": dict(
    technique="bounded explicit-state model checking: exhaustive enumeration of duration lattice x step lattice (both signs) and epoch lattice x steps x 9 scales through the real floor/ceil/round/approx, plus stateright BFS over chains of these operations, against a div_euclid reference model",
-   text="Every (duration, step) pair of the lattices (steps 1 ns .. centuries .. MAX of both signs, and 0) and every (scale, count within +-100 centuries, step) triple is run through the real floor/ceil/round (and approx) and compared with the div_euclid model on the i128 count, including the side conditions floor <= d < ceil; a stateright BFS chains the operations from non-initial states and checks idempotence.",
+   text="Every (duration, step) pair of the lattices (steps 1 ns .. centuries .. MAX of both signs, and 0) and every (scale, count within +-100 centuries, step) triple is run through the real floor/ceil/round (and approx) and compared with the div_euclid model on the i128 count, including the side conditions floor <= d < ceil; a stateright BFS chains the operations (depth 3 quick / 4 thorough) from non-initial states and checks idempotence.",
    note="Trusted: from_parts/to_parts (C02). Where the true floor is below the range (ceil/round) the statement is ambiguous: counted don't-care; when the true ceil is above the range both readings of round are accepted. Known finding D1 via exact defect model.",
    ref="DESIGN.md §4 C14"),
  "C01": dict(
    technique="bounded explicit-state model checking of the real operators: exhaustive enumeration of lattice products (all ordered pairs of the duration lattice, lattice x i64 factor lattice, lattice x units) plus stateright BFS over operation sequences, each step co-simulated with an i128 reference model",
-   text="Every ordered pair of the duration lattice (century anchors incl. both bounds, dense windows round 0, +-1..3 centuries, MIN, MAX and the i64 limits) is run through + - += -=, every lattice x factor pair through * / (both operand orders), every lattice x unit pair through the Unit forms, and a stateright BFS explores all operation sequences up to depth 3 (quick) / 4 (thorough) from non-initial states; each real result is compared with clamp(i128 op). Exhaustive over the stated finite space, not a proof for all 2^160 pairs.",
+   text="Every ordered pair of the duration lattice (century anchors incl. both bounds, dense windows round 0, +-1..3 centuries, MIN, MAX and the i64 limits) is run through + - += -=, every lattice x factor pair through * / (both operand orders), every lattice x unit pair through the Unit forms, and a stateright BFS explores all operation sequences up to depth 4 (quick) / 5 (thorough) from non-initial states; Unit + Unit / Unit - Unit for all 81 pairs; each real result is compared with clamp(i128 op). Exhaustive over the stated finite space, not a proof for all 2^160 pairs.",
    note="Trusted: Duration::from_parts(c, n<century) / to_parts() (cross-checked by C02), the i128 model (a dozen lines), rustc overflow checks turning wraps into observable panics. Known finding D1 (total_nanoseconds below -1 century, pinned by the repo's own test) is matched by an exact defect model.",
    ref="DESIGN.md §4 C01"),
 }
